@@ -1,7 +1,7 @@
 """C23  Java string literals denote exactly the original string (DESIGN §7 C23)."""
 from pyvc.core import And, Eq, Implies, Ite, Not, Or
 from pyvc.text import atoms
-from pyvc.unit import unit
+from pyvc.unit import bare, unit
 from specs import javalex as J
 
 WR = "androguard/decompiler/writer.py"
@@ -75,7 +75,7 @@ def visit_constant(U, n):
     written through string(), i.e. as a quoted literal"""
     m = U.mod(WR)
     s = U.str("s", n, 0x20, 0x7E) if n >= 4 else U.str("s", n)
-    w = object.__new__(m.Writer)
+    w = bare(m.Writer)
     out = []
     w.write = lambda text, data=None: out.append((text, data))
     o = U.call(w.visit_constant, s)
